@@ -208,6 +208,9 @@ def l3_world(mode, third_locus=False):
     for i, (t, c, slots, strand, grp) in enumerate(plan):
         if mode == "read_id":
             name = "r%d_%s" % (i, grp) if grp else "r%dnogroup" % i
+        elif mode == "read_id_multi":
+            # a delimiter of several characters; the ungroupable ids contain single delimiter characters only
+            name = "r%d_BC_%s" % (i, grp) if grp else "r%d_no_B_C" % i
         else:
             name = "r%d" % i
         r = W.read_of(name, c, W.exons(7000 if t == "T5" else 1000, slots), strand=strand)
@@ -223,7 +226,7 @@ def l3_world(mode, third_locus=False):
         iso[name] = t
     # a multi-mapped read: secondary alignment in an intergenic stretch of chr1 (first chromosome in BAM order), primary FSM of T4
     # on chr2 -> the retained locus is on chr2 and must be counted under the read's documented group gB
-    mm_name = "mm_gB" if mode == "read_id" else "mm"
+    mm_name = "mm_gB" if mode == "read_id" else ("mm_BC_gB" if mode == "read_id_multi" else "mm")
     inter = W.exons(5500, [0, 1, 2])
     W.add_sites_for_blocks(w, "chr1", inter, "+")
     W.dedup_sites(w)
@@ -299,6 +302,8 @@ def l3_case(args):
             argv += ["--read_group", "tag:XU"]
         elif mode == "read_id":
             argv += ["--read_group", "read_id:_"]
+        elif mode == "read_id_multi":
+            argv += ["--read_group", "read_id:_BC_"]
         elif mode in ("file3", "file5"):
             # documented column options: file:FILE:READ_COL[:GROUP_COL[:DELIM]] (READ_COL 0, GROUP_COL 1, tab if not set)
             tbl = os.path.join(d, "table.tsv")
@@ -533,10 +538,10 @@ def run(ctx):
             ctx.violation("l2:%s:%s" % (kind, level), "reads %s, group order %s, format %s: %s" % (list(reads), list(order), fmt, msg),
                           {"reads": list(reads), "order": list(order), "format": fmt})
     jobs = []
-    universes = {"tag": ["A1", "gB", "gC", "NA"], "read_id": ["A1", "gB", "gC", "NA"], "file": ["A1", "gB", "gC", "NA"], "file_name": ["L1", "L2"],
+    universes = {"tag": ["A1", "gB", "gC", "NA"], "read_id": ["A1", "gB", "gC", "NA"], "read_id_multi": ["A1", "gB", "gC", "NA"], "file": ["A1", "gB", "gC", "NA"], "file_name": ["L1", "L2"],
                  "tagint": ["12", "3", "7", "NA"], "file3": ["A1", "gB", "gC", "NA"], "file5": ["A1", "gB", "gC", "NA"],
                  "tagutf": ["NA"] + sorted(UTF_TAG.values())}
-    for mode in ("tag", "tagint", "tagutf", "read_id", "file", "file3", "file5", "file_name"):
+    for mode in ("tag", "tagint", "tagutf", "read_id", "read_id_multi", "file", "file3", "file5", "file_name"):
         for fmt in ("both",) if quick else ("matrix", "linear", "both"):
             orders = list(itertools.permutations(universes[mode]))
             if quick:
